@@ -3,6 +3,7 @@
   Model: `Jb/Model/Weights.lean` (`voiceSetNew`, `weightsNew`, `IW.set*`, `applyIWHistory`).
 -/
 import Jb.Proofs.Weights
+import Jb.Proofs.SynthBridge2
 
 set_option linter.unusedSectionVars false
 
@@ -145,5 +146,18 @@ example : ∃ s, (IW.new 2 3 : IW ℚ).setParameter 0 1 [3 / 4, 1 / 4] = .ok s :
 example : (IW.new 2 3 : IW ℚ).setParameter 0 1 [3 / 4, 1 / 2] = .err .invalidSum := by
   have h : ¬ |([3 / 4, 1 / 2] : List ℚ).sum - 1| ≤ 0 := by norm_num
   simp only [IW.setParameter, validate_bad_sum _ _ _ h]
+
+/-! ### for the whole library (`Jb/Proofs/SynthBridge2.lean`) -/
+
+/-- **C19 from the voice files.** A rejected interpolation-weight update anywhere in a history of weight updates leaves
+    what `Engine::synthesize` returns unchanged — for every voice set, setter history, labels, every outcome. -/
+theorem library_rejected_update_is_noop {K : Type} [Field K] [LinearOrder K] [IsStrictOrderedRing K] [FloorRing K]
+    [Transc K] [Consts K] [MlpgConsts K] [FromFile K] (fx : Fix) (big : K)
+    (voices : List Hts.ParsedVoice) (eps : K) (iw₀ : IW K) (wops₁ wops₂ : List (IWOp K)) (op : IWOp K)
+    (ops : List (CondOp K)) (f : Condition K → Bool) (labels : List (List Char)) (times : List (K × K))
+    (h : ∀ s, IWOp.apply eps (applyIWHistory eps iw₀ wops₁) op ≠ .ok s) :
+    Synth.synthesize fx big voices (applyIWHistory eps iw₀ (wops₁ ++ op :: wops₂)) ops f labels times =
+      Synth.synthesize fx big voices (applyIWHistory eps iw₀ (wops₁ ++ wops₂)) ops f labels times :=
+  Synth.synthesize_rejected_update fx big voices eps iw₀ wops₁ wops₂ op ops f labels times h
 
 end Jb.C19
